@@ -241,6 +241,9 @@ class StorageRoundTrip(Contract):
         yield {"kind": "float", "values": [0.0, -0.0, 1.5, float("nan"), float("inf"), float("-inf"), 5e-324, 1.7976931348623157e308]}
         yield {"kind": "float", "values": [float("nan"), float("nan")]}
         yield {"kind": "float", "values": [1.17549435e-38 * 2, 1.0e-38, 3.0]}
+        # the closest neighbours of the float no-data sentinel are ordinary values (only the sentinel itself is excepted)
+        s_ = 1.175494351e-38
+        yield {"kind": "float", "values": [float(np.nextafter(s_, 0.0)), float(np.nextafter(s_, 1.0)), float(np.finfo(np.float32).tiny), 1.1755e-38, s_ * (1 + 1e-9), 2.0]}
         yield {"kind": "integer", "values": [0, 1, -1, INT32_MAX, INT32_MIN + 1]}
         yield {"kind": "boolean", "values": [0, 1, 1, 0]}
         yield {"kind": "referenced", "values": [1, 2, 0, 2], "map": {1: "A", 2: "Bé"}}
@@ -308,4 +311,62 @@ class StorageRoundTrip(Contract):
         return None
 
 
-CONTRACTS = [IntegerFormatType, BooleanFormatType, FormatValuesLength, StorageRoundTrip]
+class PaddingRoundTrip(Contract):
+    """Bounded stand-in: vertex data shorter than the geometry are padded with the class's no-data
+    marker (NaN -> stored float code; the integer code for integer data) whatever the NumPy dtype
+    of the input, and the supplied entries read back unchanged: in memory, in the raw dataset and
+    from a fresh workspace."""
+    target = "geoh5py/data/numeric_data.py::NumericData.format_length"
+    variant = "padding-round-trip"
+    symbolic = False
+    has_native = True
+    props = ("C08",)
+    bounded_scope = "6-vertex cloud, 1-5 supplied values; float data from float16/32/64, integer data from (u)int8/16/32/64 and integral floats (exhaustive over the listed dtypes)"
+
+    FLOATS = ("float16", "float32", "float64")
+    INTS = ("int8", "int16", "int32", "int64", "uint8", "uint16", "uint32", "float32", "float64")
+
+    def native_cases(self, tier, rng):
+        for m in (1, 3, 5):
+            for dt in self.FLOATS:
+                yield {"kind": "float", "dtype": dt, "m": m}
+            for dt in self.INTS:
+                yield {"kind": "integer", "dtype": dt, "m": m}
+
+    def native_check(self, case):
+        import h5py
+
+        from geoh5py.objects import Points
+        from geoh5py.shared import FLOAT_NDV, INTEGER_NDV
+        from geoh5py.workspace import Workspace
+
+        n, m = 6, case["m"]
+        base = (np.arange(m) + 1) if case["dtype"].startswith("u") else (np.arange(m) - 1) * 3
+        arr = (base + (0.5 if case["kind"] == "float" else 0)).astype(case["dtype"])
+        gap_mem = np.nan if case["kind"] == "float" else float(INTEGER_NDV)
+        gap_raw = float(np.float64(FLOAT_NDV)) if case["kind"] == "float" else float(INTEGER_NDV)
+        d = tempfile.mkdtemp()
+        path = os.path.join(d, "pad.geoh5")
+        try:
+            with Workspace.create(path) as ws:
+                pts = Points.create(ws, vertices=np.zeros((n, 3)))
+                dat = pts.add_data({"d": {"values": arr.copy(), "type": case["kind"], "association": "VERTEX"}})
+                uid = dat.uid
+                live = np.asarray(dat.values, dtype=float)
+            with h5py.File(path, "r") as f:
+                raw = np.asarray(f[list(f)[0]]["Data"]["{" + str(uid) + "}"]["Data"][()], dtype=float)
+            with Workspace(path, mode="r") as ws:
+                back = np.asarray(ws.get_entity(uid)[0].values, dtype=float)
+            exp = np.r_[arr.astype(float), [gap_mem] * (n - m)]
+            expr = np.r_[arr.astype(float), [gap_raw] * (n - m)]
+            for label, got, want in (("in memory", live, exp), ("re-opened", back, exp)):
+                if got.shape != want.shape or not np.array_equal(got, want, equal_nan=True):
+                    return f"{label}: {case['kind']} data from {case['dtype']} {arr.tolist()} padded to {n} reads {got.tolist()}, expected {want.tolist()}"
+            if raw.shape != expr.shape or not (np.allclose(raw[:m], expr[:m]) and np.allclose(raw[m:], expr[m:], rtol=1e-6, atol=0)):
+                return f"stored: {case['kind']} data from {case['dtype']} {arr.tolist()} is stored as {raw.tolist()}, expected {expr.tolist()} (gaps = the format's no-data code)"
+        finally:
+            shutil.rmtree(d, ignore_errors=True)
+        return None
+
+
+CONTRACTS = [IntegerFormatType, BooleanFormatType, FormatValuesLength, StorageRoundTrip, PaddingRoundTrip]
